@@ -182,6 +182,8 @@ def c15(tier):
     selftest.run(P, C, ('ts2', 'nl1'))
     pm.run(P, C)
     nl.nl1(P, C, floor=8, only=("permuteDimensions",))
+    # a permuted table is served by the specialisation of its *new* order pattern: the admission predicate is position-wise
+    dp.dp8(P, C)
     ts.ts2(P, C, only=("permuteDimensions",), rule_floor=1)
     cw.cw1(P, C, only=("splinetable_permute",))
     cw.cw2(P, C, only=("splinetable_permute",))
@@ -260,6 +262,9 @@ def c03(tier):
     n = dp.cl1(P, C)
     dp.cl2(P, C)
     cw.cw5(P, C)
+    # the value path (bsplvb_simple), the derivative path and the gradient path (bspline_nonzero) must treat the margins alike
+    kb.kb2(P, C)
+    kb.kb2b(P, C)
     C.extra["cores_compared"] = n
     C.extra["units"] = sorted(P.units.keys())
     return C.finish()
@@ -302,6 +307,8 @@ def c10(tier):
     selftest.run(P, C, ('sp',))
     sg.run_mono(P, C)
     sg.run_sign(P, C)
+    # the constrained solver gets the system exactly as assembled (it manages the symmetric/full views of the matrix itself)
+    gw.gw5(P, C)
     # "for any data": the solver's factor bookkeeping must not read moved or released CHOLMOD arrays on any path
     sp.sp1(P, C, floor=3)
     sp.sp2(P, C)
